@@ -13,15 +13,16 @@ VARIABLES ms, pc, bad, nextScope, emitted
 vars == <<ms, pc, bad, nextScope, emitted>>
 
 Cfgs == {[fw |-> f, nmw |-> n, mwfail |-> mf, handler |-> h, registered |-> rg, method |-> m, recovery |-> rc,
-          scopemw |-> sm, provclosed |-> pcl, batch |-> b] :
+          scopemw |-> sm, provclosed |-> pcl, batch |-> b, outer |-> ou] :
             f \in Frameworks, n \in 0..MaxMw, mf \in 0..MaxMw, h \in {"ok", "err", "panic", "handle"}, rg \in BOOLEAN,
-            m \in {"ok", "panic"}, rc \in BOOLEAN, sm \in BOOLEAN, pcl \in BOOLEAN, b \in Batches}
+            m \in {"ok", "panic"}, rc \in BOOLEAN, sm \in BOOLEAN, pcl \in BOOLEAN, b \in Batches, ou \in BOOLEAN}
 \* drop combinations that only repeat others
 Relevant(c) == /\ c.mwfail <= c.nmw
                /\ (c.handler # "handle" => (c.registered /\ c.method = "ok" /\ ~c.recovery))
                /\ (~c.scopemw => (c.nmw = 0 /\ ~c.provclosed))
                /\ (c.provclosed => (c.nmw = 0 /\ c.handler \in {"ok", "handle"}))
                /\ (c.batch > 1 => (c.handler \in {"ok", "handle"} /\ c.mwfail = 0 /\ ~c.provclosed))
+               /\ (c.outer => (c.scopemw /\ ~c.provclosed /\ c.mwfail = 0 /\ c.handler \in {"ok", "handle"}))
 
 Reqs(c) == 1..c.batch
 
